@@ -231,7 +231,7 @@ func ArgString(a *model.Arg) string {
 	case model.ArgMoves:
 		return MovesContent(a.Moves)
 	}
-	return strings.Join(a.Toks, "")
+	return env.Canon(strings.Join(a.Toks, " "))
 }
 
 // PlainArg is the argument text as the compiler is documented to pass it on (tokens
